@@ -443,6 +443,10 @@ def bounded(chk):
                 items.append(dict(base, clause="negation"))
                 for a_, b_ in ((2.0, 3.0), (0.5, -4.0)) + (((3.0, 0.25),) if chk.tier == "thorough" else ()):
                     items.append(dict(base, clause="affine", a=a_, b=b_))
+                if (ep, en) == easy[0] and len(set(pos + neg)) == len(pos + neg) and pos and neg:
+                    # very small / very large scales (tie-free data): absolute tolerances inside the library would show here
+                    for a_, b_ in ((1e-4, 0.0), (1e-6, 1.0), (1e5, -3.0)):
+                        items.append(dict(base, clause="affine", a=a_, b=b_))
     for sc, ec in B.CONFIGS:
         for pos, neg in (([1, 2, 4], [0, 3]), ([5], [1, 2, 2]), ([-3, -1], [-2])):
             base = {"pos": pos, "neg": neg, "ep": 0, "en": 0, "sc": sc, "ec": ec, "int": True}
@@ -451,7 +455,7 @@ def bounded(chk):
             items.append(dict(base, clause="swap"))
     for sc, ec in B.CONFIGS:
         items.append({"clause": "groupswap", "pos": [3.0, 1.0, 2.0], "neg": [2.5, 0.5], "pg": ["a", "b", "a"], "ng": ["b", "c"], "ep": 0, "en": 0, "sc": sc, "ec": ec})
-    chk.bounded["bound"] = f"all order types of pos+neg <= {maxn}, easy counts {easy}, 4 configurations; thresholds at/around every score and +-inf; 8 targets; affine maps (2,3), (0.5,-4); float tolerance 16 ulp (64 for affine images)"
+    chk.bounded["bound"] = f"all order types of pos+neg <= {maxn}, easy counts {easy}, 4 configurations; thresholds at/around every score and +-inf; 8 targets; affine maps (2,3), (0.5,-4) and, for tie-free data, scales 1e-6 .. 1e5; float tolerance 16 ulp (64 for affine images)"
     chk.bounded["rule"] = "enumerated; each (dataset, configuration, relation) is one case"
     chk.bounded["exhaustive"] = True
     run_bounded(chk, items, eval_items)
